@@ -119,6 +119,10 @@ func (q *PriorityQueue) Pop() (*rtp.Packet, error) {
 	q.next.val = nil
 	q.length--
 	q.next = q.next.next
+	if q.next != nil {
+		// Don't keep the popped node (and every node popped before it) reachable.
+		q.next.prev = nil
+	}
 
 	return val, nil
 }
@@ -132,6 +136,10 @@ func (q *PriorityQueue) PopAt(sqNum uint16) (*rtp.Packet, error) {
 		val := q.next.val
 		q.next.val = nil
 		q.next = q.next.next
+		if q.next != nil {
+			// Don't keep the popped node (and every node popped before it) reachable.
+			q.next.prev = nil
+		}
 		q.length--
 
 		return val, nil
@@ -167,6 +175,10 @@ func (q *PriorityQueue) PopAtTimestamp(timestamp uint32) (*rtp.Packet, error) {
 		val := q.next.val
 		q.next.val = nil
 		q.next = q.next.next
+		if q.next != nil {
+			// Don't keep the popped node (and every node popped before it) reachable.
+			q.next.prev = nil
+		}
 		q.length--
 
 		return val, nil
